@@ -288,7 +288,12 @@ class ShelfCreator:
         """
         kind, name, parent, versioned = self.deletion[file_id]
         existing_path = self.target_tree.id2path(file_id)
-        if not self.work_tree.has_filename(existing_path):
+        if not self.work_tree.has_filename(
+            existing_path
+        ) or self.work_tree.is_versioned(existing_path):
+            # Only an unversioned leftover of the deleted file can be
+            # re-versioned in place; a path that now belongs to another
+            # versioned entry (e.g. "rm a; mv b a") must not be taken over.
             existing_path = None
         version = not versioned[1]
         self._shelve_creation(
